@@ -9,6 +9,7 @@ import MinkModel.Output
 import MinkModel.Wire
 import MinkModel.Skel
 import MinkModel.Conc
+import MinkModel.DocRender
 namespace Mink
 
 structure PState where
@@ -492,5 +493,25 @@ def concFacts (toks : List String) : List String :=
       | .error i => [s!"stuck {i} {(rest.filter (· ≠ "")).getD i "?"}"]
     | _, _, _ => ["bad-request conc tokens"]
   | _ => ["bad-request conc"]
+
+
+/-! ### `doc` requests: the comment a documentation text is rendered to -/
+
+def hexOfChars (l : List Char) : String :=
+  String.ofList (l.flatMap fun c =>
+    let n := c.toNat
+    let d (k : Nat) : Char := if k < 10 then Char.ofNat (48 + k) else Char.ofNat (87 + k)
+    [d (n / 16), d (n % 16)])
+
+/-- `doc <rust|c|java> <hex bytes of the documentation window>` -/
+def docFacts (toks : List String) : List String :=
+  match toks with
+  | [st, hx] =>
+    let style := if st == "rust" then DocStyle.rust else if st == "java" then DocStyle.java else DocStyle.c
+    let bytes := (parseHex hx.toList).map (fun (n : Nat) => Char.ofNat n)
+    match renderDoc style trimEndAscii bytes with
+    | some out => [s!"ok {hexOfChars out}"]
+    | none => ["panic"]
+  | _ => ["bad-request doc"]
 
 end Mink
